@@ -269,11 +269,21 @@ def drive(sched_records, seed, workdir, tag="s", extra_args=()):
     traces, outs = [], []
     for rc, so, se, tf in res:
         if rc != 0:
+            # a fatal runtime error (stack overflow, out of memory: not recoverable inside the process) that
+            # happened in the library while the driver executed a schedule is a finding, not a broken harness
+            if "fatal error" in se and "github.com/coyim/otr3." in se:
+                CRASHES.append(("the library brought the driver down while executing a schedule of %s: " % os.path.basename(tf)
+                                + " | ".join(se.splitlines()[:3]))[:400])
+                continue
             raise Broken("driver failed rc=%s: %s %s" % (rc, so[-2000:], se[-2000:]))
         traces.append(tf)
         outs.append(so)
     log("[drive] %d schedules in %d shards %.1fs" % (len(sched_records), n, time.time() - t0))
     return traces, outs
+
+
+# fatal crashes of the library observed by drive(); the caller turns them into findings
+CRASHES = []
 
 
 def run_driver(args, timeout=3600):
